@@ -26,7 +26,8 @@ Proof.
     destruct auto, dep, (addr_is_4in6 a); unfold_units; split; intros; repeat split; try lia; try tauto; try congruence.
     all: intuition (try lia; try congruence).
   - rewrite !andb_true_iff, !orb_true_iff, !negb_true_iff, nodupN_b_iff.
-    rewrite (forallb_Forall_iff _ (fun s => addr_is_4in6 (s mod two128)%N = false)) by (intros; apply negb_true_iff).
+    rewrite (forallb_Forall_iff _ (fun s => (s < two128)%N /\ addr_is_4in6 s = false))
+      by (intros; rewrite andb_true_iff, negb_true_iff, N.ltb_lt; tauto).
     assert (X : existsb (N.eqb 0) servers = false <-> ~ In 0%N servers).
     { split.
       - intros E I. assert (existsb (N.eqb 0) servers = true) by (apply existsb_exists; exists 0%N; auto). congruence.
@@ -149,15 +150,15 @@ Proof.
   - apply IH. intros a b Ha Hb. apply Hinj; cbn; auto.
 Qed.
 
-Definition good_key (k : skey) : Prop := (fst k < two128)%N /\ is_4in6 (fst k) = false.
+Definition good_key (k : skey) : Prop := (fst k < two128)%N /\ is_4in6 (fst k) = false /\ snd k = 0%N.
 
 Lemma server_keys_good l : forallb atext_wfb l = true -> Forall good_key (server_keys l).
 Proof.
   induction l as [|s t IH]; cbn; intros H; [constructor|].
   apply andb_true_iff in H as [H1 H2]. specialize (IH H2).
   destruct s as [|v4 a z]; cbn; [exact IH|]. destruct v4; [exact IH|].
-  destruct (is_4in6 a) eqn:E; [exact IH|]. cbn. constructor; [|exact IH].
-  split; cbn [fst]; [change (N.ltb a two128 = true) in H1; apply N.ltb_lt; exact H1 | exact E].
+  destruct (is_4in6 a) eqn:E; [exact IH|]. destruct (N.ltb 0 z) eqn:Ez; [exact IH|]. cbn. constructor; [|exact IH].
+  split; [|split]; cbn [fst snd]; [change (N.ltb a two128 = true) in H1; apply N.ltb_lt; exact H1 | exact E | apply N.ltb_ge in Ez; lia].
 Qed.
 
 Lemma two128_val : two128 = 340282366920938463463374607431768211456%N.
@@ -169,10 +170,9 @@ Proof.
   intros [H1 _] [H2 _] E. assert (a = a' /\ z = z') as [-> ->] by lia. reflexivity.
 Qed.
 
-Lemma skey_enc_mod k : good_key k -> (skey_enc k mod two128)%N = fst k.
+Lemma skey_enc_plain k : good_key k -> skey_enc k = fst k.
 Proof.
-  destruct k as [a z]. unfold good_key, skey_enc. cbn [fst snd]. intros [H _].
-  rewrite N.mod_add by (rewrite two128_val; lia). apply N.mod_small. exact H.
+  destruct k as [a z]. unfold good_key, skey_enc. cbn [fst snd]. intros [_ [_ ->]]. lia.
 Qed.
 
 Lemma wild_eqb_false k : skey_eqb wild_server k = false <-> k <> wild_server.
@@ -219,8 +219,8 @@ Proof.
       congruence. }
     intros E. assert (I : In (skey_enc k) (map skey_enc (sk_sort ks))) by (apply in_map; apply Hin; auto).
     rewrite E in I. exact I.
-  - apply Forall_map. apply Forall_forall. intros k Hk. rewrite skey_enc_mod by auto.
-    apply (Gs k Hk).
+  - apply Forall_map. apply Forall_forall. intros k Hk. rewrite skey_enc_plain by auto.
+    destruct (Gs k Hk) as [G1 [G2 _]]. split; assumption.
 Qed.
 
 Lemma dnssl_default_wf mx d : dnssl_ok mx d -> plugin_wf mx (dnssl_default mx d).
